@@ -1259,6 +1259,63 @@ def near_miss(items, rng):
     return it, "near-" + kind
 
 
+SENTINEL_NAMES = ["Eof", "EOF", "Eof2", "Augmented", "Epsilon", "Accept", "Reduce", "Shift", "Start", "End", "Terminal", "Quasiterminal"]
+
+
+def sentinelize(items, rng):
+    """Renames one terminal (and sometimes one nonterminal) after a word the generator might use for something of its
+    own — the end-of-input column, the augmented start rule, ε: a user's `$Eof` is a terminal like any other."""
+    import copy
+    it = copy.deepcopy(items)
+    terms = [d for d in it if d["kind"] == "terminal"]
+    nts = [d["name"] for d in it if d["kind"] in ("struct", "enum")]
+    if len(terms) != 1 or not terms[0]["variants"]:
+        return it
+    taken = set(nts) | {v["name"] for v in terms[0]["variants"]} | {terms[0]["name"]}
+    free = [n for n in SENTINEL_NAMES if n not in taken]
+    if not free:
+        return it
+    new = rng.choice(free[:3] if rng.random() < 0.7 else free)
+    rename_t(it, rng.choice(terms[0]["variants"])["name"], new)
+    if rng.random() < 0.3:
+        free = [n for n in free if n != new]
+        start = [d for d in it if d["kind"] == "start"][0]["name"]
+        cand = [n for n in nts if n != start]
+        if free and cand:
+            rename_nt(it, rng.choice(cand), rng.choice(free))
+    return it
+
+
+def big_enum_violation(rng):
+    """An enum with around 20, 32, 64 or 128 variants (the sizes at which sorting routines, small-vector types and
+    bit sets change their algorithm) in which one variant name — or one symbol sequence — occurs two or three times, at
+    random places; referred to by nothing, so that no later stage masks the verdict.  Returns (items, label)."""
+    n = rng.choice([19, 20, 21, 22, 23, 31, 32, 33, 40, 63, 64, 65, 100, 128, 129])
+    kind = rng.choice(["name", "name", "seq"])
+    vs = []
+    for j in range(n):
+        k = j + 1 if kind == "seq" else (j % 4)
+        vs.append({"name": f"V{j}x", "fieldset": {"kind": "empty"} if k == 0 else {"kind": "tuple", "fields": [{"used": True, "sym": sym_t("T")} for _ in range(k)]}})
+    if kind == "seq":
+        vs[0]["fieldset"] = {"kind": "empty"}
+    occ = sorted(rng.sample(range(n), rng.choice([2, 2, 3])))
+    for o in occ[1:]:
+        if kind == "name":
+            vs[o]["name"] = vs[occ[0]]["name"]
+        else:
+            vs[o]["fieldset"] = vs[occ[0]]["fieldset"]
+    if kind == "name":
+        # keep the symbol sequences of the equally named variants distinct (one violation kind at a time)
+        for j, v in enumerate(vs):
+            v["fieldset"] = {"kind": "empty"} if j == 0 else {"kind": "tuple", "fields": [{"used": True, "sym": sym_t("T")} for _ in range(j)]}
+    items = [{"kind": "start", "name": "S"}, {"kind": "struct", "attrs": [], "name": "S", "fieldset": {"kind": "empty"}},
+             {"kind": "enum", "attrs": [], "name": "Big", "variants": vs},
+             {"kind": "terminal", "attrs": [], "name": "Tok", "variants": [{"name": "T", "type": "()"}]}]
+    if rng.random() < 0.5:
+        items[1], items[2] = items[2], items[1]
+    return items, f"big-enum-{kind}-{n}"
+
+
 def rename_nt(items, old, new, refs=True):
     done = False
     for d in items:
